@@ -58,18 +58,24 @@ type UnionWrite struct {
 // KeyBinding is `final v = json['K'] ...;`.
 type KeyBinding struct{ Var, Key string }
 
-func (fn *Function) matches() []int {
+// matches returns the bracket table of Body. ok is false for a hand-built
+// Function whose Body is not balanced (ParseFile never builds one): the
+// helpers relying on brackets then report nothing.
+func (fn *Function) matches() (m []int, ok bool) {
 	if fn.match == nil || len(fn.match) != len(fn.Body) {
 		m, err := matchBrackets(fn.Name, fn.Body)
-		if err != nil { // cannot happen for bodies built by ParseFile
+		if err != nil {
 			m = make([]int, len(fn.Body))
 			for i := range m {
 				m[i] = -1
 			}
+			fn.unbalanced = true
+		} else {
+			fn.unbalanced = false
 		}
 		fn.match = m
 	}
-	return fn.match
+	return fn.match, !fn.unbalanced
 }
 
 func (fn *Function) at(i int) Token {
@@ -115,7 +121,10 @@ func (fn *Function) calleeBefore(open int) (string, int) {
 // indices into Body. open is the index of the `(`, -1 if there is no such call.
 func (fn *Function) ReturnCall() (name string, open int, args [][2]int) {
 	b := fn.Body
-	m := fn.matches()
+	m, ok := fn.matches()
+	if !ok {
+		return "", -1, nil
+	}
 	try := func(i int) bool {
 		if fn.at(i).ident("const") || fn.at(i).ident("new") {
 			i++
@@ -152,7 +161,10 @@ func (fn *Function) ReturnCall() (name string, open int, args [][2]int) {
 // together with the name used in `return Name(`.
 func (fn *Function) JSONReads() (ctor string, reads []KeyUse) {
 	ctor, ctorOpen, args := fn.ReturnCall()
-	m := fn.matches()
+	m, ok := fn.matches()
+	if !ok {
+		return "", nil
+	}
 	for i := range fn.Body {
 		if !fn.keyRead(i) {
 			continue
@@ -199,7 +211,7 @@ type mapEntry struct {
 }
 
 func (fn *Function) mapEntries(open int) []mapEntry {
-	m := fn.matches()
+	m, _ := fn.matches()
 	var out []mapEntry
 	for _, seg := range splitCommas(fn.Body, m, open+1, m[open]) {
 		if seg[0] == seg[1] {
@@ -218,11 +230,14 @@ func (fn *Function) mapEntries(open int) []mapEntry {
 // JSONWrites extracts the ordered entries `"k" : callee(item.field)` or
 // `"k" : item.field` of the map literal returned by a struct ToJson routine.
 func (fn *Function) JSONWrites() []KeyWrite {
+	m, ok := fn.matches()
+	if !ok {
+		return nil
+	}
 	open := fn.returnedMap(0, len(fn.Body))
 	if open < 0 {
 		return nil
 	}
-	m := fn.matches()
 	var out []KeyWrite
 	for _, e := range fn.mapEntries(open) {
 		w := KeyWrite{Expr: joinRaw(fn.Body[e.from:e.to]), Line: fn.Body[e.entryStart].Line}
@@ -286,7 +301,10 @@ func (fn *Function) SwitchSubject() string {
 // json (['Kind'], ['Data']) and whether a default branch throws.
 func (fn *Function) UnionCases() (cases []UnionCase, keysRead []string, hasDefaultThrow bool) {
 	b := fn.Body
-	m := fn.matches()
+	m, ok := fn.matches()
+	if !ok {
+		return nil, nil, false
+	}
 	keysRead = fn.KeysRead()
 	for i := range b {
 		switch {
@@ -336,7 +354,10 @@ func (fn *Function) UnionWrites() []UnionWrite {
 // with an else branch that throws.
 func (fn *Function) UnionWritesInfo() (writes []UnionWrite, hasElseThrow bool) {
 	b := fn.Body
-	m := fn.matches()
+	m, ok := fn.matches()
+	if !ok {
+		return nil, false
+	}
 	for i := range b {
 		if b[i].ident("else") && (fn.at(i+1).ident("throw") || (fn.at(i+1).punct("{") && fn.at(i+2).ident("throw"))) {
 			hasElseThrow = true
@@ -356,7 +377,7 @@ func (fn *Function) UnionWritesInfo() (writes []UnionWrite, hasElseThrow bool) {
 			lo, hi = lo+1, m[lo]
 		} else {
 			for k := lo; k < len(b); k++ {
-				if t := b[k]; t.punct("(") || t.punct("[") || t.punct("{") {
+				if t := b[k]; (t.punct("(") || t.punct("[") || t.punct("{")) && m[k] > k {
 					k = m[k]
 					continue
 				}
@@ -395,12 +416,12 @@ func (fn *Function) UnionWritesInfo() (writes []UnionWrite, hasElseThrow bool) {
 // returnedMapShallow is returnedMap restricted to [lo, hi), not entering
 // nested blocks.
 func (fn *Function) returnedMapShallow(lo, hi int) int {
-	m := fn.matches()
+	m, _ := fn.matches()
 	for i := lo; i+1 < hi; i++ {
 		if fn.Body[i].ident("return") && fn.Body[i+1].punct("{") {
 			return i + 1
 		}
-		if fn.Body[i].punct("{") {
+		if fn.Body[i].punct("{") && m[i] > i {
 			i = m[i]
 		}
 	}
@@ -432,17 +453,32 @@ func (fn *Function) Callees() []string {
 }
 
 // Idents lists the distinct identifiers of the body that are not reserved
-// words and not preceded by `.`, in order of first appearance. It covers the
+// or control words (as, is, await, ...) and not preceded by `.`, in order of first appearance. It covers the
 // tear-offs `.map(intFromJson)` that Callees does not see.
 func (fn *Function) Idents() []string {
 	var out []string
 	seen := map[string]bool{}
 	for i, t := range fn.Body {
-		if t.Kind != KindIdent || reserved[t.Text] || isMemberAccess(fn.at(i-1)) || seen[t.Text] {
+		if t.Kind != KindIdent || reserved[t.Text] || controlWords[t.Text] || isMemberAccess(fn.at(i-1)) || seen[t.Text] {
 			continue
 		}
 		seen[t.Text] = true
 		out = append(out, t.Text)
 	}
 	return out
+}
+
+// DanglingElse reports an `else` that does not follow a `}` or a `;`, which
+// is never valid Dart. The union ToJson template produces one for a union
+// without members (its body starts with `else {`).
+func (fn *Function) DanglingElse() bool {
+	for i, t := range fn.Body {
+		if !t.ident("else") || isMemberAccess(fn.at(i-1)) {
+			continue
+		}
+		if prev := fn.at(i - 1); !prev.punct("}") && !prev.punct(";") {
+			return true
+		}
+	}
+	return false
 }
